@@ -74,11 +74,11 @@ def obs_key(obs, model, with_disc_dv=True):
     """architecture identity incl. values of discrete, non-follower DV nodes"""
     d = []
     if with_disc_dv:
-        fol = dv_followers(model)
+        rep = model.dv_rep()
         for name, v in obs['dv']:
             n = model.nodes.get(name)
-            if n is not None and 'options' in n and name not in fol:
-                d.append((name, int(v)))
+            if n is not None and 'options' in n and (rep[name], int(v)) not in d:
+                d.append((rep[name], int(v)))
     e = [x for x in obs['edges'] if x[2] in ('D', 'C') and not x[0].startswith(('S:', 'K:', 'SEL<'))
          and not x[1].startswith(('S:', 'K:', 'SEL<'))]
     return S.canon({'n': obs['nodes'], 'e': e, 'dv': sorted(d)})
